@@ -109,7 +109,7 @@ class C07(Prop):
             "REQ/EVENT/COUNT, or CLOSE whose acknowledging COUNT is then the operation in flight), at most one per "
             "pause because the session takes nothing more until its reply is read; the reply is awaited and stamped "
             "when the reader resumes and stays missing when the client leaves without reading; subscription ids "
-            "from {a,b,c} shared by all connections, filters from the C02 universe incl. match-all and limits, every "
+            "from {a, b, c, the empty string} shared by all connections, filters from the C02 universe incl. match-all and limits, every "
             "publication with its own id), 15% deterministic connection-churn scripts (same executor; a weighted "
             "random walk over the same operations plus 'open': 2..5 connections exist from the start, 1..3 more "
             "connect to the same router later, typically after subscribers that had stopped reading have left with "
